@@ -268,6 +268,38 @@ theorem C07_late_dotted (s : St) (p : Proxy) (n : Name) (rest : List Name) (v w 
   | nil => exact absurd rfl hrest
   | cons a r => simp only [hmiss, hpath, modAttr, hg, hchain]
 
+/-- **late SUBSCRIPTED names** (`'Box[int]'`, `'list[Box[int]]'`, postponed `Box[int]` with `Box` defined after the
+    function): subscripting the proxy of an unbound name yields a proxy that is resolved exactly like the
+    unsubscripted one — same owner, same dotted name, same parent code object — in every state: through the module
+    attribute, else the locals of the running parent (closures!), else the name-based fake. -/
+theorem C07_late_subscripted (p : Proxy) (args : List H) (hsub : p.subbed = false) :
+    ∃ q, subH (.fwd p) args = .ok (.fwd q) ∧ q.owner = p.owner ∧ q.path = p.path ∧ q.frame = p.frame ∧
+      ∀ s : St, resolveFresh s q = resolveFresh s p :=
+  ⟨{ p with subbed := true }, by simp [subH, hsub], rfl, rfl, rfl, fun s => resolveFresh_subbed s p true⟩
+
+/-- … in particular in a closure: `def outer(): @beartype def f(x: 'Box[int]'); class Box(Generic[T]): …; f(Box())` —
+    while `outer` runs, the first call after the definition finds the local `Box` (`C07_late_local` for the
+    subscripted proxy) and remembers it. -/
+theorem C07_late_subscripted_local (s : St) (p : Proxy) (args : List H) (n : Name) (v : H) (c : Nat) (fr : Frame)
+    (hsub : p.subbed = false) (hpath : p.path = [n])
+    (hg : s.globals.get? n = none) (hb : s.builtins.get? n = none)
+    (hf : p.frame = some c) (hfr : findFrameCode s c s.stack = some fr) (hl : fr.locals.get? n = some v) :
+    ∃ q, subH (.fwd p) args = .ok (.fwd q) ∧
+      (cacheGet? s.cache q = none → resolveProxy s q = (.ok (.val v), (q, .val v) :: s.cache)) := by
+  refine ⟨{ p with subbed := true }, by simp [subH, hsub], ?_⟩
+  intro hmiss
+  have := C07_late_local s { p with subbed := true } n v c fr hpath hmiss hg hb hf hfr
+  rw [this, hl]
+
+/-- the ARGUMENTS of a late subscripted name are dropped (`BeartypeForwardRefSubbedABC` "currently ignores
+    subscription"): `@beartype def f(x: 'K[int]')`; `K = list`; call — the call checks `list`, the evaluated
+    annotation is `list[int]` (`f(['a'])` is accepted; finding `unsubscripted-instead-of-bound`). For a user generic
+    `class K(Generic[T])` the two hints give the same verdicts (beartype checks `K[int]` by `isinstance(obj, K)`). -/
+theorem C07_late_subscripted_counterexample :
+    lastTags (run (St.init [("list", .obj 6), ("int", .obj 1)] []) [.def_ 1 "f" (.quoted (.sub (.name "K") [.name "int"])),
+      .decorate 1 [], .bindE "K" (.name "list"), .call 1]).2
+      = some ((0, 6), (5, 0)) := by decide
+
 /-! ## 4b. … for every module-level history -/
 
 /-- **C07_history_cache_sound.** Along EVERY module-level history that rebinds nothing (`ModHistory`: any
@@ -438,6 +470,13 @@ example :
   have hist : ModHistory s0 (.def_ 1 "f" (.quoted e) :: .decorate 1 [] :: evs) := by
     refine ⟨rfl, rfl, rfl, rfl, rfl, rfl, rfl, by decide, rfl, rfl, rfl, rfl, rfl, rfl, rfl, rfl, trivial⟩
   exact C07_history s0 1 "f" e evs _ inv (by decide) (by decide) (by rfl) hist (by decide) _ (by rfl)
+
+/-- `C07_late_subscripted_local` applies: `def outer(): @beartype def f(x: 'Box[int]'); class Box …; f(…)` — the call
+    inside `outer` checks the local class `<7>` (the evaluated annotation is `<7>[int]`). -/
+example :
+    lastTags (run (St.init [("int", .obj 1)] []) [.enter false 10 "outer",
+      .def_ 1 "f" (.quoted (.sub (.name "Box") [.name "int"])), .decorate 1 [], .bindV "Box" (.obj 7), .call 1]).2
+      = some ((0, 7), (5, 0)) := by decide
 
 end examples
 
